@@ -38,6 +38,7 @@ MIN_NONTRIVIAL_FRACTION = 0.3
 RULE += ' Added after the seeded rounds: Signature pools may contain case twins (two patterns equal up to letter case, with different levels, learnt / forgotten separately); clock gaps up to a day.'
 RULE += ' Overlap scenarios: a stronger literal rule whose only occurrence in the input overlaps the match of another rule (shares its start, starts inside it, or ends inside it).'
 RULE += ' Bookkeeping calls between inputs (clear_audit_log, get_statistics, export_antibodies, get_audit_log).'
+RULE += ' Relaxation scenarios may let 1100 or 5000 other inputs pass between the block and the relaxation (bounded memories).'
 EXHAUSTIVE_NOTE = {"quick": "every built-in signature/pattern instance (22 membrane + 18 innate) x 4 renderings (plain, upper-cased, embedded, embedded after 300 characters) x every threshold (4 / 5): 680 cases, complete for that table; relaxation table: 5 literal rules x 3 thresholds x 4 ways of relaxing a learnt rule = 60 histories; overlap table: every multi-word built-in instance x 3 ways a stronger literal rule overlaps it x custom/learnt",
                    "thorough": "same table, complete"}
 
@@ -162,7 +163,9 @@ def _membrane_case(draw):
         inst = draw(st.from_regex(re.compile(pat[1]), fullmatch=True))[:200] if pat[0] else pat[1]
         text = draw(st.sampled_from(BENIGN)) + " " + _swap(inst, draw(st.integers(0, 3))) + " " + draw(st.sampled_from(BENIGN))
         relax = draw(st.sampled_from([[["forget", pat]], [["threshold", 3]], [["learn", pat, 1]], [["forget", pat], ["threshold", 3]], [["import", [[pat, 1]]]]]))
-        ops = ops[:draw(st.integers(0, 3))] + [["learn", pat, draw(st.integers(2, 3))], ["filter", text]] + relax + [["refilter", 0], ["filter", text]]
+        # sometimes thousands of other inputs pass through the membrane between the block and the relaxation (bounded memories, eviction)
+        crowd = [["bulk", draw(st.sampled_from([1100, 5000]))]] if draw(st.integers(0, 5)) == 0 else []
+        ops = ops[:draw(st.integers(0, 3))] + [["learn", pat, draw(st.integers(2, 3))], ["filter", text]] + crowd + relax + [["refilter", 0], ["filter", text]]
     elif draw(st.integers(0, 6)) == 0:
         # overlap scenario: a stronger rule whose only occurrence in the input overlaps (shares its start with, or starts inside) the match of
         # another rule - "system prompt injection" for the built-in "system prompt" and a custom "prompt injection"
@@ -240,6 +243,9 @@ def enumerate_cases(tier):
                 text = "please " + lit + " ok"
                 yield {"kind": "membrane", "threshold": thr, "adaptive": True, "rate": None, "custom": [],
                        "ops": [["learn", [False, lit], 3], ["filter", text]] + relax + [["refilter", 0], ["filter", text.upper()]]}
+                if thr == 2 and lit == LIT[0]:
+                    yield {"kind": "membrane", "threshold": thr, "adaptive": True, "rate": None, "custom": [],
+                           "ops": [["learn", [False, lit], 3], ["filter", text], ["bulk", 5000]] + relax + [["refilter", 0]]}
     for inst in mem:
         for text in (inst, _swap(inst, 1), "hello please " + inst + " . thanks", "the report for monday please summarise thanks ok " * 6 + inst + " ok"):
             for thr in range(4):
@@ -342,6 +348,12 @@ def _membrane(case, out, clock, mod):
                 continue
             if name == "maint":
                 getattr(m, op[1])()              # bookkeeping between inputs: decisions must not depend on it
+                continue
+            if name == "bulk":
+                from operon_ai.core.types import Signal as _Signal
+                out.label("bulk")
+                for k_ in range(op[1]):
+                    m.filter(_Signal(content="benign request number %d about the monday report" % k_))      # only there to fill memories; not judged
                 continue
         except Exception as e:
             out.fail("raise:%s:%s" % (type(e).__name__, name), "%s raised %s: %s" % (name, type(e).__name__, e), {"step": i, "op": op})
